@@ -257,6 +257,8 @@ def inline_once(rec, fns, vocab, depth_of, stats):
 
 # ---------------------------------------------------------------- desugaring of a few core combinators
 BOOL = {"k": "bool"}
+ITER_NEXT_OF = {"core::slice::Iter": "<core::slice::Iter<'a, T> as core::iter::Iterator>::next",
+                "core::slice::IterMut": "<core::slice::IterMut<'a, T> as core::iter::Iterator>::next"}
 CONTAINS = {"core::ops::RangeInclusive::<Idx>::contains": "Le", "core::ops::Range::<Idx>::contains": "Lt"}
 TRY_BRANCH = "<core::result::Result<T, E> as core::ops::Try>::branch"
 FROM_RESIDUAL = "<core::result::Result<T, F> as core::ops::FromResidual<core::result::Result<core::convert::Infallible, E>>>::from_residual"
@@ -478,6 +480,75 @@ def desugar(rec, prog, stats):
             stats.setdefault(rec["path"], []).append("desugar:" + c.rsplit("::", 1)[1])
             changed = True
             continue
+        if c in ("core::iter::Iterator::try_for_each", "core::iter::Iterator::for_each") and len(t["args"]) == 2 and not t["dest"]["proj"] \
+                and t.get("cargs") and t["cargs"][0].get("k") == "adt" and t["cargs"][0].get("path") in ITER_NEXT_OF \
+                and all(a["k"] in ("move", "copy") and not a["place"]["proj"] for a in t["args"]) \
+                and rec["locals"][t["args"][1]["place"]["local"]].get("k") == "closure":
+            # it.try_for_each(f)  ->  loop { match it.next() { None => break Ok(()), Some(x) => f(x)? } }      (for_each: without the `?`)
+            ity = t["cargs"][0]
+            it_op, f_op = t["args"]
+            itl = it_op["place"]["local"]
+            by_ref = rec["locals"][itl].get("k") == "ref"
+            if c.endswith("for_each") and not c.endswith("try_for_each") and by_ref is False:
+                pass
+            elem = ity["args"][0] if ity.get("args") else {"k": "other"}
+            item_ty = {"k": "ref", "mut": ity["path"].endswith("IterMut"), "to": elem}
+            opt_ty = {"k": "adt", "path": "core::option::Option", "args": [item_ty], "s": "core::option::Option<&T>"}
+            fl = f_op["place"]["local"]
+            fty = rec["locals"][fl]
+            dty = rec["locals"][t["dest"]["local"]]
+            is_try = c.endswith("try_for_each")
+            line = t.get("line")
+            n = len(rec["locals"])
+            # locals: r (reborrow), nx, d, item, tup, cr, rr, d2
+            rec["locals"].extend([{"k": "ref", "mut": True, "to": ity}, opt_ty, {"k": "int", "bits": 64, "name": "isize"}, item_ty,
+                                  {"k": "tuple", "elems": [item_ty]}, {"k": "ref", "mut": True, "to": fty}, dty if is_try else {"k": "tuple", "elems": []},
+                                  {"k": "int", "bits": 64, "name": "isize"}])
+            r, nx, d, item, tup, cr, rr, d2 = range(n, n + 8)
+            nb = len(rec["blocks"])
+            H, S, N, B, C, E, U = nb, nb + 1, nb + 2, nb + 3, nb + 4, nb + 5, nb + 6
+            it_place = {"local": itl, "proj": [{"k": "deref"}]} if by_ref else {"local": itl, "proj": []}
+            if by_ref:
+                dfn = _single_def(rec, itl)
+                if dfn is not None and dfn[0] == "stmt" and dfn[3]["rv"]["k"] == "ref" and not dfn[3]["rv"]["place"]["proj"]:
+                    it_place = {"local": dfn[3]["rv"]["place"]["local"], "proj": []}
+                    # the original `&mut it` fed only the adaptor call: drop it, the loop re-borrows the iterator itself
+                    uses = sum(json.dumps(bk).count('"local": %d,' % itl) for bk in rec["blocks"])
+                    if uses == 2:
+                        del rec["blocks"][dfn[1]]["stmts"][dfn[2]]
+            rec["blocks"].append({"stmts": [{"k": "assign", "place": {"local": r, "proj": []}, "rv": {"k": "ref", "mut": True, "place": it_place}, "line": line}],
+                                  "term": {"k": "call", "callee": "core::iter::Iterator::next", "resolved": ITER_NEXT_OF[ity["path"]], "cargs": [ity], "rargs": [elem],
+                                           "args": [{"k": "move", "place": {"local": r, "proj": []}}], "dest": {"local": nx, "proj": []}, "target": S, "line": line}})
+            rec["blocks"].append({"stmts": [{"k": "assign", "place": {"local": d, "proj": []}, "rv": {"k": "discr", "place": {"local": nx, "proj": []}}, "line": line}],
+                                  "term": {"k": "switch", "discr": {"k": "move", "place": {"local": d, "proj": []}}, "dty": {"k": "int", "bits": 64, "name": "isize"},
+                                           "arms": [[0, N], [1, B]], "otherwise": U, "line": line}})
+            if is_try:
+                okv = {"k": "aggregate", "agg": "adt", "path": "core::result::Result", "variant": 0, "vname": "Ok", "args": dty.get("args", []), "is_enum": True,
+                       "ops": [{"k": "const", "ty": {"k": "tuple", "elems": []}}]}
+            else:
+                okv = {"k": "aggregate", "agg": "tuple", "ops": []}
+            rec["blocks"].append({"stmts": [{"k": "assign", "place": copy.deepcopy(t["dest"]), "rv": okv, "line": line}], "term": {"k": "goto", "target": t["target"]}})
+            rec["blocks"].append({"stmts": [
+                {"k": "assign", "place": {"local": item, "proj": []},
+                 "rv": {"k": "use", "op": {"k": "move", "place": {"local": nx, "proj": [{"k": "downcast", "variant": 1, "name": "Some"}, {"k": "field", "i": 0, "ty": item_ty}]}}}, "line": line},
+                {"k": "assign", "place": {"local": tup, "proj": []}, "rv": {"k": "aggregate", "agg": "tuple", "ops": [{"k": "move", "place": {"local": item, "proj": []}}]}, "line": line},
+                {"k": "assign", "place": {"local": cr, "proj": []}, "rv": {"k": "ref", "mut": True, "place": {"local": fl, "proj": []}}, "line": line}],
+                "term": {"k": "call", "callee": "core::ops::FnMut::call_mut", "resolved": None, "cargs": [fty, {"k": "tuple", "elems": [item_ty]}], "rargs": [],
+                         "args": [{"k": "move", "place": {"local": cr, "proj": []}}, {"k": "move", "place": {"local": tup, "proj": []}}], "dest": {"local": rr, "proj": []},
+                         "target": C if is_try else H, "line": line}})
+            rec["blocks"].append({"stmts": [{"k": "assign", "place": {"local": d2, "proj": []}, "rv": {"k": "discr", "place": {"local": rr, "proj": []}}, "line": line}],
+                                  "term": {"k": "switch", "discr": {"k": "move", "place": {"local": d2, "proj": []}}, "dty": {"k": "int", "bits": 64, "name": "isize"},
+                                           "arms": [[0, H], [1, E]], "otherwise": U, "line": line}})
+            rec["blocks"].append({"stmts": [{"k": "assign", "place": copy.deepcopy(t["dest"]),
+                                             "rv": {"k": "aggregate", "agg": "adt", "path": "core::result::Result", "variant": 1, "vname": "Err", "args": dty.get("args", []), "is_enum": True,
+                                                    "ops": [{"k": "move", "place": {"local": rr, "proj": [{"k": "downcast", "variant": 1, "name": "Err"},
+                                                                                                      {"k": "field", "i": 0, "ty": (dty.get("args") or [None, {"k": "other"}])[1]}]}}]},
+                                             "line": line}], "term": {"k": "goto", "target": t["target"]}})
+            rec["blocks"].append({"stmts": [], "term": {"k": "unreachable"}})
+            blk["term"] = {"k": "goto", "target": H}
+            stats.setdefault(rec["path"], []).append("desugar:" + c.rsplit("::", 1)[1])
+            changed = True
+            continue
         if c in ("core::bool::<impl bool>::then", "core::bool::<impl bool>::then_some") and len(t["args"]) == 2 and not t["dest"]["proj"]:
             # cond.then(f) / cond.then_some(v)  ->  if cond { Some(f()) } else { None }
             cnd, f_ = t["args"]
@@ -682,6 +753,123 @@ def forward_return_temp(rec, stats):
     return True
 
 
+# ---------------------------------------------------------------- named aggregate constants (e.g. `const WINDOW: Range<usize> = 3..1026`)
+def eval_const_body(cb):
+    """Evaluate a tiny constant body (integer arithmetic, tuples, one aggregate) -> aggregate rvalue json with literal operands, or None."""
+    env = {}
+
+    def operand(o):
+        if o["k"] == "const":
+            return ("int", o["val"], o["ty"]) if "val" in o else None
+        if o["k"] in ("copy", "move"):
+            v = env.get(o["place"]["local"])
+            for pr in o["place"]["proj"]:
+                if v is None:
+                    return None
+                if pr["k"] == "field" and v[0] == "tuple":
+                    v = v[1][pr["i"]]
+                else:
+                    return None
+            return v
+        return None
+    b = 0
+    for _ in range(16):
+        blk = cb["blocks"][b]
+        for st in blk["stmts"]:
+            if st["k"] != "assign" or st["place"]["proj"]:
+                continue
+            rv = st["rv"]
+            val = None
+            if rv["k"] == "use":
+                val = operand(rv["op"])
+            elif rv["k"] == "binop":
+                x, y = operand(rv["a"]), operand(rv["b"])
+                if x and y and x[0] == "int" and y[0] == "int":
+                    op = rv["op"]
+                    base = op[:-12] if op.endswith("WithOverflow") else op
+                    r = {"Add": x[1] + y[1], "Sub": x[1] - y[1], "Mul": x[1] * y[1]}.get(base)
+                    if r is not None:
+                        bits = x[2].get("bits", 64)
+                        ov = not (0 <= r < (1 << bits)) if x[2].get("k") == "uint" else not (-(1 << (bits - 1)) <= r < (1 << (bits - 1)))
+                        val = ("tuple", [("int", r, x[2]), ("int", int(ov), {"k": "bool"})]) if op.endswith("WithOverflow") else ("int", r, x[2])
+            elif rv["k"] == "aggregate":
+                ops = [operand(o) for o in rv["ops"]]
+                if all(o is not None and o[0] == "int" for o in ops):
+                    val = ("agg", rv, ops)
+            env[st["place"]["local"]] = val
+        t = blk["term"]
+        if t["k"] == "goto":
+            b = t["target"]
+        elif t["k"] == "assert":
+            c = operand(t["cond"])
+            if not c or c[0] != "int" or bool(c[1]) != bool(t["expected"]):
+                return None
+            b = t["target"]
+        elif t["k"] == "return":
+            v = env.get(0)
+            if v and v[0] == "agg":
+                rv = copy.deepcopy(v[1])
+                rv["ops"] = [{"k": "const", "ty": o[2], "bits": o[1], "val": o[1], "size": 8} for o in v[2]]
+                return rv
+            return None
+        else:
+            return None
+    return None
+
+
+def materialise_consts(rec, prog, stats):
+    """An operand that names an aggregate constant becomes a local built in place just before its use."""
+    changed = False
+    cache = {}
+
+    def find(x, out):
+        if isinstance(x, dict):
+            if x.get("k") == "const" and "val" not in x and x.get("s") in prog.constbodies:
+                out.append(x)
+                return
+            for v in x.values():
+                find(v, out)
+        elif isinstance(x, list):
+            for v in x:
+                find(v, out)
+    for blk in rec["blocks"]:
+        new_stmts = []
+        for st in blk["stmts"]:
+            found = []
+            find(st, found)
+            for c in found:
+                rv = cache.get(c["s"])
+                if rv is None:
+                    rv = cache[c["s"]] = eval_const_body(prog.constbodies[c["s"]]) or False
+                if rv:
+                    n = len(rec["locals"])
+                    rec["locals"].append(c["ty"])
+                    new_stmts.append({"k": "assign", "place": {"local": n, "proj": []}, "rv": copy.deepcopy(rv), "line": st.get("line")})
+                    name = c["s"]
+                    c.clear()
+                    c.update({"k": "move", "place": {"local": n, "proj": []}})
+                    stats.setdefault(rec["path"], []).append("const:" + name)
+                    changed = True
+            new_stmts.append(st)
+        found = []
+        find(blk["term"], found)
+        for c in found:
+            rv = cache.get(c["s"])
+            if rv is None:
+                rv = cache[c["s"]] = eval_const_body(prog.constbodies[c["s"]]) or False
+            if rv:
+                n = len(rec["locals"])
+                rec["locals"].append(c["ty"])
+                new_stmts.append({"k": "assign", "place": {"local": n, "proj": []}, "rv": copy.deepcopy(rv), "line": blk["term"].get("line")})
+                name = c["s"]
+                c.clear()
+                c.update({"k": "move", "place": {"local": n, "proj": []}})
+                stats.setdefault(rec["path"], []).append("const:" + name)
+                changed = True
+        blk["stmts"] = new_stmts
+    return changed
+
+
 def apply(prog):
     """Inline helper calls in every function of the program (in place).  Returns {caller: [inlined callees]}."""
     from facts import Fn
@@ -690,6 +878,13 @@ def apply(prog):
     helpers = {p for p in recs if is_helper(p, vocab)}
     stats = {}
     touched = set()
+    if prog.constbodies:
+        named = {k for k in prog.constbodies if not k.endswith("::_")}
+        if named:
+            for p, rec in recs.items():
+                if any(('"s": "%s"' % k) in json.dumps(rec["blocks"]) for k in named) if len(named) <= 8 else True:
+                    if materialise_consts(rec, prog, stats):
+                        touched.add(p)
     for p, rec in recs.items():
         for _ in range(6):
             if not desugar(rec, prog, stats):
